@@ -297,6 +297,30 @@ def run(ctx):
             _mk(res, "a proto-subroutine history of legal steps raises outside the final encode",
                 {"fl": fname, "text": text, "exception": type(e).__name__ + ": " + str(e)[:160]})
 
+    # ------------------------------------------------------------ process-wide configurations
+    # a compact pass of reject / accept cases (direct construction and text assembler) under every
+    # configuration knob of the package (runtime settings, simulator selection, log level DEBUG): an
+    # unrepresentable operand is rejected and a representable one encoded exactly as without it
+    cfg_cases = []
+    pick = rng.sample(range(len(cases)), min(len(cases), 400))
+    for k in pick:
+        fname, c, ops, tag, bad = cases[k]
+        if len(cfg_cases) < 80 and R.renderable(ops) and (fname, H.T.cls_name(c)) not in clash41:
+            cfg_cases.append((fname, c, ops, bad, enc[k].get("b")))
+
+    def _cfg_pass(cname):
+        for fname, c, ops, bad, mb_ in cfg_cases:
+            res.evaluations += 1
+            res.count("config:" + cname.split("(")[0].split("=")[0])
+            rb, exc, inst = R.real_direct(c, ops)
+            tb, texc, _p = R.real_text(fname, R.render_text(c.mnemonic, ops))
+            tb = tb[4:] if tb is not None else None
+            if rb != mb_ or tb != mb_ or (bad and (rb is not None or tb is not None)):
+                _mk(res, "encode / reject outcome changes under a process-wide configuration",
+                    {"config": cname, "fl": fname, "c": H.T.cls_name(c), "o": ops, "unrepresentable": bad,
+                     "expected": mb_, "direct": rb, "text": tb, "exceptions": [exc, texc]})
+    H.under_every_config(_cfg_pass)
+
     # ------------------------------------------------------------ metadata (app id, version)
     meta = []
     for app in [0, 1, 65535, 65536, 65537, 70000, 2 ** 32, 2 ** 32 + 4464, 10 ** 20, -1, -65536]:
